@@ -57,8 +57,10 @@ OUTER:
 
 		stackDirtyBase := m.stackDirtyBase
 
+		verifTrace("persister.begin", m)
 		m.m.Unlock()
 
+		verifGate("persister.beforeUpdate", m)
 		if m.isClosed() {
 			return
 		}
@@ -75,6 +77,7 @@ OUTER:
 
 			m.OnError(err)
 
+			verifTrace("persister.error", m)
 			continue OUTER
 		}
 
@@ -83,6 +86,7 @@ OUTER:
 		var stackDirtyBasePrev *segmentStack
 		var stackCleanPrev *segmentStack
 
+		verifGate("persister.beforeSwap", m)
 		m.m.Lock()
 
 		m.invalidateLatestSnapshotLOCKED()
@@ -103,6 +107,7 @@ OUTER:
 		llssPrev := m.lowerLevelSnapshot
 		m.lowerLevelSnapshot = NewSnapshotWrapper(llssNext, nil)
 
+		verifTrace("persister.swap", m)
 		m.m.Unlock()
 
 		if stackDirtyBasePrev != nil {
